@@ -173,6 +173,9 @@ pub mod soapysdr_sink;
 #[cfg(feature = "soapysdr")]
 pub mod soapysdr_source;
 
+#[cfg(feature = "verif-hooks")]
+pub mod verif;
+
 pub mod block;
 pub mod blocks;
 pub mod circular_buffer;
